@@ -179,26 +179,54 @@ Error EmitHelper::emit_arg_move(
     if (TypeUtils::is_int(src_type_id)) {
       uint32_t x = uint32_t(dst_size == 8);
 
-      dst.set_signature(OperandSignature{x ? RegTraits<RegType::kGp64>::kSignature : RegTraits<RegType::kGp32>::kSignature});
+      constexpr uint32_t kGp32Signature = RegTraits<RegType::kGp32>::kSignature;
+      constexpr uint32_t kGp64Signature = RegTraits<RegType::kGp64>::kSignature;
+
+      // A wider destination is sign extended if both types are signed and zero extended otherwise (what x86 does with
+      // 'movsx' and 'movzx'). Signed types have even identifiers.
+      bool widen = dst_size > src_size;
+      bool src_signed = (uint32_t(src_type_id) & 1u) == 0u;
+      bool sign_extend = widen ? (src_signed && (uint32_t(dst_type_id) & 1u) == 0u) : src_signed;
+
+      dst.set_signature(OperandSignature{x ? kGp64Signature : kGp32Signature});
       _emitter->set_inline_comment(comment);
 
       if (src.is_reg()) {
-        src.set_signature(dst.signature());
-        return _emitter->emit(Inst::kIdMov, dst, src);
+        if (!widen) {
+          src.set_signature(dst.signature());
+          return _emitter->emit(Inst::kIdMov, dst, src);
+        }
+
+        InstId inst_id = Inst::kIdNone;
+        switch (src_size) {
+          case 1: inst_id = sign_extend ? Inst::kIdSxtb : Inst::kIdUxtb; break;
+          case 2: inst_id = sign_extend ? Inst::kIdSxth : Inst::kIdUxth; break;
+          case 4: inst_id = sign_extend ? Inst::kIdSxtw : Inst::kIdMov; break;
+          default:
+            return make_error(Error::kInvalidState);
+        }
+
+        // Zero extension is a 32-bit operation (the upper half of the destination is cleared).
+        if (!sign_extend) {
+          dst.set_signature(OperandSignature{kGp32Signature});
+        }
+        src.set_signature(OperandSignature{kGp32Signature});
+        return _emitter->emit(inst_id, dst, src);
       }
       else if (src.is_mem()) {
         InstId inst_id = Inst::kIdNone;
-          switch (src_type_id) {
-          case TypeId::kInt8: inst_id = Inst::kIdLdrsb; break;
-          case TypeId::kUInt8: inst_id = Inst::kIdLdrb; break;
-          case TypeId::kInt16: inst_id = Inst::kIdLdrsh; break;
-          case TypeId::kUInt16: inst_id = Inst::kIdLdrh; break;
-          case TypeId::kInt32: inst_id = x ? Inst::kIdLdrsw : Inst::kIdLdr; break;
-          case TypeId::kUInt32: inst_id = Inst::kIdLdr; break;
-          case TypeId::kInt64: inst_id = Inst::kIdLdr; break;
-          case TypeId::kUInt64: inst_id = Inst::kIdLdr; break;
+        switch (src_size) {
+          case 1: inst_id = sign_extend ? Inst::kIdLdrsb : Inst::kIdLdrb; break;
+          case 2: inst_id = sign_extend ? Inst::kIdLdrsh : Inst::kIdLdrh; break;
+          case 4: inst_id = (x && sign_extend) ? Inst::kIdLdrsw : Inst::kIdLdr; break;
+          case 8: inst_id = Inst::kIdLdr; break;
           default:
             return make_error(Error::kInvalidState);
+        }
+
+        // Zero extending loads and 32-bit loads write a W register (the upper half of the destination is cleared).
+        if (src_size < 8 && !(sign_extend && (x || src_size < 4))) {
+          dst.set_signature(OperandSignature{kGp32Signature});
         }
         return _emitter->emit(inst_id, dst, src);
       }
@@ -207,6 +235,23 @@ Error EmitHelper::emit_arg_move(
 
   if (TypeUtils::is_float(dst_type_id) || TypeUtils::is_vec(dst_type_id)) {
     if (TypeUtils::is_float(src_type_id) || TypeUtils::is_vec(src_type_id)) {
+      // Conversion between single and double precision - only the scalar register forms are implemented.
+      TypeId dst_scalar_id = TypeUtils::scalar_of(dst_type_id);
+      TypeId src_scalar_id = TypeUtils::scalar_of(src_type_id);
+
+      if ((dst_scalar_id == TypeId::kFloat32 && src_scalar_id == TypeId::kFloat64) ||
+          (dst_scalar_id == TypeId::kFloat64 && src_scalar_id == TypeId::kFloat32)) {
+        bool to_double = dst_scalar_id == TypeId::kFloat64;
+        if (!src.is_reg() || src_size != (to_double ? 4u : 8u)) {
+          return make_error(Error::kInvalidState);
+        }
+
+        dst.as<Vec>().set_signature(to_double ? RegTraits<RegType::kVec64>::kSignature : RegTraits<RegType::kVec32>::kSignature);
+        src.as<Vec>().set_signature(to_double ? RegTraits<RegType::kVec32>::kSignature : RegTraits<RegType::kVec64>::kSignature);
+        _emitter->set_inline_comment(comment);
+        return _emitter->emit(Inst::kIdFcvt_v, dst, src);
+      }
+
       switch (src_size) {
         case 2: dst.as<Vec>().set_signature(RegTraits<RegType::kVec16>::kSignature); break;
         case 4: dst.as<Vec>().set_signature(RegTraits<RegType::kVec32>::kSignature); break;
